@@ -195,7 +195,9 @@ class RealModel:
                     return 'ok', list(self.m.evaluate(tuple(addrs)))
                 if variant == 'gen1':
                     return 'ok', list(self.m.evaluate(a for a in addrs))
-                if variant in ('object', 'nosheet', 'nosheet_object'):
+                if variant == 'object':
+                    return 'ok', list(self.m.evaluate([AddressRange(a) for a in addrs]))
+                if variant in ('nosheet', 'nosheet_object'):
                     return 'ok', list(self.m.evaluate(
                         [AddressRange(n) for n in act['ns']]))
                 raise ValueError(variant)
@@ -252,7 +254,7 @@ def tour(g, make_model, on_step, max_steps=None, rnd=None):
     total = remaining
     steps = restarts = 0
     cur, model, hist = g.init, make_model(), []
-    budget = float(os.environ.get('VERIF_TOUR_BUDGET', '1500'))    # seconds per tour
+    budget = float(os.environ.get('VERIF_TOUR_BUDGET', '600'))    # seconds per tour
     t0 = time.time()
     g.tour_truncated = False
 
